@@ -46,7 +46,7 @@ def run(repo: Repo, chk: Check) -> None:
     P, Q, A = Sym('P', 'str'), Sym('Q', 'str'), Sym('annots')
     leaf = {'int': Sym('n', 'str')}
     val1 = {'prim': Sym('V', 'str'), 'annots': Sym('va')}
-    registry = {'H1': val1, 'H2': {'prim': Q, 'args': [const('H1'), leaf]}, 'H3': [const('H1')]}
+    registry = {'H1': val1, 'H2': {'prim': Q, 'args': [const('H1'), leaf]}, 'H3': [const('H1')], 'H4': []}
     cases: Dict[str, Any] = {
         'reference at the top': (const('H1'), val1),
         'reference as first argument': ({'prim': P, 'args': [const('H1'), leaf], 'annots': A}, {'prim': P, 'args': [val1, leaf], 'annots': A}),
@@ -59,6 +59,8 @@ def run(repo: Repo, chk: Check) -> None:
                                                    {'prim': P, 'args': [{'prim': Q, 'args': [val1]}]}),
         'registered value refers to another constant': (const('H2'), {'prim': Q, 'args': [val1, leaf]}),
         'registered value is a sequence with a reference': ({'prim': P, 'args': [const('H3')]}, {'prim': P, 'args': [[val1]]}),
+        'registered value is the empty sequence': (const('H4'), []),
+        'registered empty sequence as an argument': ({'prim': P, 'args': [leaf, const('H4')]}, {'prim': P, 'args': [leaf, []]}),
         'no reference: application unchanged': ({'prim': P, 'args': [leaf], 'annots': A}, {'prim': P, 'args': [leaf], 'annots': A}),
         'no reference: leaf unchanged': (leaf, leaf),
         'no reference: nullary prim unchanged': ({'prim': P, 'annots': A}, {'prim': P, 'annots': A}),
